@@ -28,7 +28,8 @@ func newBaseStreamDataHandle() *baseStreamDataHandle {
 }
 
 func (s *baseStreamDataHandle) HasStreamData(data []byte) bool {
-	return bytes.Contains(data, []byte{0x30, 0x31, 0x63, 0x64}) // 808543076 = 0x30 0x31 0x63 0x64
+	// 帧头标识只能出现在数据的开头 jt808报文的内容(文件名 告警编号 手机号)里面也可能包含这4个字节
+	return bytes.HasPrefix(data, []byte{0x30, 0x31, 0x63, 0x64}) // 808543076 = 0x30 0x31 0x63 0x64
 }
 
 func (s *baseStreamDataHandle) HasMinHeadLen(data []byte) bool {
